@@ -1072,7 +1072,14 @@ class _NP(object):
         return 0
 
     def shape(self, x):
-        return to_arr(x).shape
+        if not isinstance(x, (ArrBase, list, tuple)):
+            return ()
+        return tuple(to_arr(x).shape)
+
+    def size(self, x):
+        if not isinstance(x, (ArrBase, list, tuple)):
+            return 1
+        return to_arr(x).size
 
     # --- elementwise
     def sign(self, x): return elementwise(sym.sign, x)
@@ -1352,8 +1359,24 @@ class _NP(object):
         if isinstance(x, Masked):
             raise Unsupported('any() of masked')
         x = to_arr(x)
+        if x.dtype != 'bool':
+            x = elementwise(lambda v: sym.cmp('!=', v, 0), x, rdtype='bool')       # truth value of a number
         if all(dim_conc(d) for d in x.shape):
             return sym.or_(*_concrete_items(x)) if x.size else False
+        symax = [k for k, d in enumerate(x.shape) if not dim_conc(d)]
+        if x.ndim > 1 and len(symax) == 1:
+            # one symbolic axis, the others concrete: any over each 1-d line along the symbolic axis
+            import itertools as _it
+            k = symax[0]
+            f = x.snap()
+            outs = []
+            for combo in _it.product(*[range(d) for j, d in enumerate(x.shape) if j != k]):
+                def line(i, combo=combo):
+                    idx = list(combo)
+                    idx.insert(k, i)
+                    return f(*idx)
+                outs.append(self.any(Arr((x.shape[k],), line, 'bool')))
+            return sym.or_(*outs) if outs else False
         if x.ndim == 1:
             c = CTX()
             f, n = x.snap(), x.shape[0]
@@ -1595,6 +1618,24 @@ class _NP(object):
             return Arr((a.shape[0] * n,) + tuple(a.shape[1:]), lambda i, *r: f(sym.floordiv(i, n) if not isinstance(i, int) else i // n, *r), a.dtype)
         raise Unsupported('np.repeat general form')
 
+    def roll(self, a, shift, axis=None):
+        a = to_arr(a)
+        if axis is None:
+            if a.ndim != 1:
+                raise Unsupported('np.roll of a flattened n-d array')
+            axis = 0
+        if not isinstance(_generic(shift), int) or not dim_conc(a.shape[axis]):
+            raise Unsupported('np.roll with symbolic shift / length')
+        n, f = a.shape[axis], a.snap()
+        sh = _generic(shift)
+
+        def g(*idx):
+            idx = list(idx)
+            i = idx[axis]
+            idx[axis] = (i - sh) % n if isinstance(i, int) else sym.mod(sym.sub(i, sh), n)
+            return f(*idx)
+        return Arr(a.shape, g, a.dtype)
+
     def outer(self, a, b):
         a, b = to_arr(a), to_arr(b)
         f, g = a.snap(), b.snap()
@@ -1825,7 +1866,25 @@ class _NP(object):
         return _Finfo()
 
     def unique(self, a):
-        raise Unsupported('np.unique')
+        """sorted distinct values: only the LENGTH is modelled (1 <= u <= n, and u == 1 exactly when all entries are equal); entries are opaque"""
+        a = to_arr(a)
+        if a.ndim != 1:
+            raise Unsupported('np.unique of an n-d array')
+        c = CTX()
+        n, f = a.shape[0], a.snap()
+        u = c.fresh('nunique', 'int')
+        c.assume(sym.and_(sym.implies(sym.cmp('>=', n, 1), u >= 1), sym.cmp('<=', u, n), u >= 0))
+        if dim_conc(n):
+            alleq = sym.and_(*[sym.cmp('==', f(i), f(0)) for i in range(1, n)]) if n > 1 else True
+            c.assume(sym.cmp('==', sym.cmp('==', u, 1), alleq) if n >= 1 else sym.cmp('==', u, 0))
+        else:
+            w = c.fresh('w', 'int')
+            c.skolems.append(w.t)
+            # u != 1 and n >= 1: some entry differs from the first one; u == 1: every entry equals the first one
+            c.assume(sym.implies(sym.and_(sym.cmp('>=', n, 1), sym.cmp('!=', u, 1)), sym.and_(w >= 1, sym.cmp('<', w, n), sym.cmp('!=', f(w), f(0)))))
+            c.qfact('unique-one', lambda j: sym.implies(sym.and_(sym.cmp('==', u, 1), j >= 0, sym.cmp('<', j, n)), sym.cmp('==', f(j), f(0))))
+        F = c.fresh_fn('unique', 1, 'real')
+        return Arr((u,), lambda i: SV(F(zterm(_generic(i)))), a.dtype)
 
     def count_nonzero(self, a):
         a = to_arr(a)
